@@ -7,6 +7,7 @@ func init() {
 	verifRegister("VerifC06SharedCtx", VerifC06SharedCtx)
 	verifRegister("VerifC06QueryCtx", VerifC06QueryCtx)
 	verifRegister("VerifC06Schema", VerifC06Schema)
+	verifRegister("VerifC06TimePair", VerifC06TimePair)
 }
 
 func verifClosed(ch <-chan struct{}) bool {
@@ -462,5 +463,78 @@ func VerifC06Schema() {
 		vAssert("when-closes-iff-was-active", verifClosed(ch) == wasActive)
 	case 4:
 		vAssert("whennot-closes-iff-was-inactive", verifClosed(ch) == wasInactive)
+	}
+}
+
+
+// VerifC06TimePair: two WhenTime subscriptions on one machine that share the context (nil or one live
+// context) and may name the same states in a different order with their own target ticks; the
+// subscriptions may share a channel only if they are the same condition. After up to three single-state
+// mutations each channel is closed exactly if its own condition held at subscription or after a transition.
+func VerifC06TimePair() {
+	s := verifNewScn(2, false, false, false, false, true, false)
+	s.inject(false)
+	m := s.m
+	var ctx context.Context
+	if vBool() {
+		c, cancel := context.WithCancel(context.Background())
+		_ = cancel
+		ctx = c
+	}
+	type tsub struct {
+		states  S
+		times   Time
+		ch      <-chan struct{}
+		subTime Time
+	}
+	var subs [2]*tsub
+	for i := range subs {
+		w := &tsub{}
+		switch vInt(0, 3) {
+		case 0:
+			w.states = S{"A", "B"}
+		case 1:
+			w.states = S{"B", "A"}
+		case 2:
+			w.states = S{"A"}
+		default:
+			w.states = S{"B"}
+		}
+		for range w.states {
+			w.times = append(w.times, uint64(vInt(0, 3)))
+		}
+		w.subTime = m.time(nil)
+		w.ch = m.WhenTime(w.states, w.times, ctx)
+		subs[i] = w
+	}
+	steps := vParam("steps", 2)
+	for k := 0; k < steps; k++ {
+		st := s.names[vInt(0, 1)]
+		if vBool() {
+			m.Add1(st, nil)
+		} else {
+			m.Remove1(st, nil)
+		}
+	}
+	vReach("timepair")
+	for i, w := range subs {
+		cond := func(t Time) bool {
+			for j, x := range w.states {
+				if t[verifIdx(m.stateNames, x)] < w.times[j] {
+					return false
+				}
+			}
+			return true
+		}
+		held := cond(w.subTime)
+		for _, e := range s.tr.log {
+			if e.kind == "end" && cond(e.after) {
+				held = true
+			}
+		}
+		closed := verifClosed(w.ch)
+		vLog("sub", uint64(i))
+		vAssert("when-time-no-lost-wakeup", !held || closed)
+		vAssert("when-time-no-spurious-wakeup", held || !closed)
 	}
 }
